@@ -316,6 +316,7 @@ UNITS.append(read_groups_unit)
 def extra_units():
     """"the output is coordinate sorted and indexed": sort_and_index returns only after a successful sort and index (C20's
     unit, re-verified under this property)"""
-    from contracts import c20
+    from contracts import c20, c08
     from pyvc.units import share
-    return [share(c20.sort_and_index, PROP)]
+    # ... and the multiprocess job loop declares the read group of every fragment it writes (C08's unit)
+    return [share(c20.sort_and_index, PROP), share(c08.run_task_rg, PROP)]
